@@ -78,8 +78,9 @@ pub enum Fault {
     SlowClone = 6,
     SlowView = 7,
     SleepJump = 8,
+    SlowDrop = 9,
 }
-pub const N_FAULTS: usize = 9;
+pub const N_FAULTS: usize = 10;
 pub const FAULT_NAMES: [&str; N_FAULTS] = [
     "preempt",
     "stall",
@@ -90,6 +91,7 @@ pub const FAULT_NAMES: [&str; N_FAULTS] = [
     "slow_clone",
     "slow_view",
     "sleep_jump",
+    "slow_drop",
 ];
 
 #[derive(Clone, Debug)]
